@@ -317,7 +317,9 @@ func symErr(depth int) error {
 		c := vrt.Choice("codeClass", 4)
 		err = &codedErr{pickMsg(2), []uint64{0, 1, 5, 1<<64 - 1}[c]}
 	case 3:
-		err = &twirpErr{pickMsg(2), "not_found"}
+		// a string code chosen by the application: plain, or hostile (CR/LF, spaces)
+		code := []string{"not_found", "aborted\r\ngrpc-status: 0", "\n", " a\rb "}[vrt.Choice("strcode", 4)]
+		err = &twirpErr{pickMsg(2), code}
 	case 4:
 		err = nil // wrapper around nil: Unwrap() returns nil
 	case 5:
@@ -627,4 +629,66 @@ func VerifH_TwirpFinishError() {
 		vrt.Assert(same, "msg member carries exactly the error message")
 	}
 	vrt.Cover("twirp-error-end")
+}
+
+const refB64Alphabet = "ABCDEFGHIJKLMNOPQRSTUVWXYZabcdefghijklmnopqrstuvwxyz0123456789+/"
+
+// refB64 is the reference: standard base64 with padding of the whole input as one unit.
+func refB64(in []byte) []byte {
+	out := make([]byte, 0, (len(in)+2)/3*4)
+	i := 0
+	for ; i+3 <= len(in); i += 3 {
+		v := uint(in[i])<<16 | uint(in[i+1])<<8 | uint(in[i+2])
+		out = append(out, refB64Alphabet[v>>18&63], refB64Alphabet[v>>12&63], refB64Alphabet[v>>6&63], refB64Alphabet[v&63])
+	}
+	switch len(in) - i {
+	case 1:
+		v := uint(in[i]) << 16
+		out = append(out, refB64Alphabet[v>>18&63], refB64Alphabet[v>>12&63], '=', '=')
+	case 2:
+		v := uint(in[i])<<16 | uint(in[i+1])<<8
+		out = append(out, refB64Alphabet[v>>18&63], refB64Alphabet[v>>12&63], refB64Alphabet[v>>6&63], '=')
+	}
+	return out
+}
+
+// VerifH_GrpcWebText: text mode. Each frame (message frame, then the trailer frame) is
+// emitted as base64 of exactly that frame - 5-byte header plus payload as one unit,
+// padding only at the frame's end - for payload sizes from boundary classes (empty, not a
+// multiple of three, around the encoder's internal 4 KiB and 1 KiB block sizes).
+func VerifH_GrpcWebText() {
+	rw := &recRW{}
+	gws := &grpcWebStream{gwp: grpcWebProtocol{write: base64Write(normalWrite), marshal: protoMarshal}, rw: rw}
+	sizes := []int{0, 1, 2, 3, 4, 1019, 1020, 4090, 4091, 4092, 4093, 8190}
+	n := sizes[vrt.Choice("size", len(sizes))]
+	msg := make([]byte, n)
+	for i := range msg {
+		msg[i] = byte(i*7 + 3)
+	}
+	if n > 0 {
+		msg[0] = vrt.U8("first")
+		msg[n-1] = vrt.U8("last")
+	}
+	vrt.Assert(gws.MsgSend(&msg, hx.ByteEnc{}) == nil, "text-mode send succeeds")
+	frame := append([]byte{0, byte(n >> 24), byte(n >> 16), byte(n >> 8), byte(n)}, msg...)
+	want := refB64(frame)
+	vrt.Assert(len(rw.out) == len(want), "a message frame is emitted as one base64 unit of header and payload")
+	if len(rw.out) == len(want) {
+		for i := range want {
+			vrt.Assert(rw.out[i] == want[i], "text-mode output is the base64 encoding of the frame")
+		}
+	}
+	// the trailer frame follows as its own base64 unit
+	mark := len(rw.out)
+	gws.Finish(nil)
+	tr := []byte("grpc-status: 0\r\n")
+	tframe := append([]byte{0x80, 0, 0, 0, byte(len(tr))}, tr...)
+	twant := refB64(tframe)
+	vrt.Assert(len(rw.out)-mark == len(twant), "the trailer frame is emitted as its own base64 unit")
+	if len(rw.out)-mark == len(twant) {
+		for i := range twant {
+			vrt.Assert(rw.out[mark+i] == twant[i], "text-mode trailers are the base64 encoding of the trailer frame")
+		}
+	}
+	vrt.Cover("grpcweb-text-end")
 }
